@@ -215,6 +215,101 @@ class CanaryAsan(Canary):
         return [] if tier == "quick" else Canary.programs(self, tier)
 
 
+class BasicSender(Unit):
+    """create_basic_sender (C++20): recursive mutex + phase + recursion counter, safe / unsafe callbacks"""
+    name = "basic_sender"; driver = "k1_basic_sender"; cfg = "shim20"; handler = "basicsender"
+    maxruns = {"quick": 3000, "thorough": 60000}
+    nrandom = {"quick": 300, "thorough": 3000}
+    FIRST = {"sync": "s", "inl": "i", "safe": "f", "unsafe": "u", "none": "n"}
+    def programs(self, tier):
+        progs = []
+        for f in ("sync", "inl", "safe", "unsafe", "none"):
+            for s2 in ("nosecond", "safe"):
+                for st in ("stop", "nostop", "prestop"):
+                    if (f, st) == ("none", "nostop"):
+                        continue
+                    if tier == "quick" and st == "prestop" and s2 == "safe":
+                        continue
+                    progs.append((f, s2, st))
+        return progs
+    def model_args(self, prog):
+        return "%s %d" % (self.FIRST[prog[0]], prog[1] == "safe")
+    TOUCH = re.compile(r"^(mutex |cb |body\.|ext (REG|DEREG)|root )")
+    def project(self, prog, events):
+        prestop = prog[2] == "prestop"
+        out = []; reg_done = False; set_seen = False; destroyed = False; trunc = False
+        parsed = []
+        for e in events:
+            m = re.match(r"t(\d+) (\S+) ?(.*)$", e)
+            parsed.append((int(m.group(1)), m.group(2), m.group(3)))
+        for k, (t, name, rest) in enumerate(parsed):
+            if name == "!op_destroyed":
+                destroyed = True; out.append((t, "op_destroyed")); continue
+            if destroyed and t != 4 and (name == "b.mutex" or name.startswith("b.cb") or name.startswith("!body.")):
+                trunc = True; break     # the storage is gone; reported by the direct monitor
+            if name == "ext.state":
+                mc = re.match(r"C\.(\S+) (\d+)->(\d+) (ok|fail)", rest)
+                ml = re.match(r"L\.\S+ (\d+)", rest)
+                if mc and mc.group(4) == "ok" and mc.group(2) == "0" and mc.group(3) == "3":
+                    set_seen = True; out.append((3, "ext SET"))
+                elif t == 0 and not reg_done and not (prestop and not set_seen):
+                    if mc and mc.group(4) == "ok" and mc.group(2) == "0" and mc.group(3) == "2":
+                        reg_done = True; out.append((0, "ext REG 0"))
+                    elif (ml and int(ml.group(1)) & 1) or (mc and mc.group(4) == "fail" and int(mc.group(2)) & 1):
+                        reg_done = True; out.append((0, "ext REG 1"))
+                elif mc and mc.group(4) == "ok" and mc.group(1) == "acq":
+                    # lock(): remove_callback inside _op::complete() (the next event of this thread
+                    # outside the source is the root completion, possibly after waiting for the
+                    # callback) - or, on thread 3, request_stop re-locking after its callback
+                    nxt = next(((n2, r2) for (t2, n2, r2) in parsed[k + 1:] if t2 == t and n2 != "ext.state"), None)
+                    if nxt and (nxt[0] == "!root" or nxt[0].startswith("b.cb")):
+                        out.append((t, "ext DEREG"))
+            elif name.startswith("b.cb"):
+                if rest in ("S.rel 1", "L.acq 1"):
+                    out.append((t, "cb " + rest))
+            elif name == "b.mutex":
+                out.append((t, "mutex " + rest))
+            elif name == "n.slot":
+                out.append((t, "slot " + rest))
+            elif name in ("!body.start", "!body.callback", "!body.stop", "!cb1.call", "!cb1.ret", "!cb2.call", "!cb2.ret"):
+                out.append((t, name[1:]))
+            elif name == "!root":
+                out.append((t, "root " + rest))
+        if not hasattr(self, "_trunc"):
+            self._trunc = {}
+        self._trunc[(tuple(prog), tuple(out))] = trunc
+        return out
+    def post_check(self, prog, summary, proj):
+        late = 0; seen_root = False
+        for t, ev in proj:
+            if ev.startswith("root "):
+                if seen_root:
+                    late += 1
+                seen_root = True
+            elif seen_root and self.TOUCH.match(ev) and t != 4:
+                late += 1
+        m = re.search(r"late=(\d+)", summary)
+        if not m or int(m.group(1)) != late:
+            return "ghost accounting differs: implementation trace has %d accesses after the completion, model says %s" % (late, summary)
+        if self._trunc.get((tuple(prog), tuple(proj))):
+            return None
+        if not re.search(r"completions=(value|done) ", summary):
+            return "model did not complete exactly once: " + summary
+        m = re.search(r"enabled=(\S*)", summary)
+        allowed = {"3"} if prog[2] == "nostop" else set()
+        if not m or not set(filter(None, m.group(1).split(","))) <= allowed:
+            return "model not quiescent at the end of a complete implementation run: " + summary
+        return None
+
+
+class BasicSenderAsan(BasicSender):
+    name = "basic_sender-asan"; cfg = "shimasan20"
+    maxruns = {"quick": 0, "thorough": 6000}
+    nrandom = {"quick": 0, "thorough": 500}
+    def programs(self, tier):
+        return [] if tier == "quick" else BasicSender.programs(self, tier)
+
+
 def units(tier):
     """every K1 unit of C19, in the order of the brief (the ASan builds only in the thorough tier)"""
     asan = tier != "quick"
@@ -232,4 +327,7 @@ def units(tier):
     us.append(Canary())
     if asan:
         us.append(CanaryAsan())
+    us.append(BasicSender())
+    if asan:
+        us.append(BasicSenderAsan())
     return us
